@@ -189,17 +189,17 @@ def run_so21(inp):
     iso = H.sl2_iso(A.copy())
     out = {"S": tolist(S), "iso": tolist(np.swapaxes(np.asarray(iso.proj_data), -1, -2)),
            "iso_list": tolist(np.swapaxes(np.asarray(H.sl2_iso(A.tolist()).proj_data), -1, -2))}
-    if not inp["shape"]:
-        out["pgl"] = tolist(lie.o_to_pgl(np.asarray(S)))
-        out["to_sl2"] = tolist(iso.to_sl2())
-        out["hom_pgl"] = tolist(lie.hom.so21_to_sl2()(np.asarray(S)))
+    # o_to_pgl is documented for arrays of shape (..., 3, 3): single matrices and arrays alike
+    out["pgl"] = tolist(lie.o_to_pgl(np.asarray(S)))
+    out["to_sl2"] = tolist(iso.to_sl2())
+    out["hom_pgl"] = tolist(lie.hom.so21_to_sl2()(np.asarray(S)))
     return out
 
 
 def lean_so21(inp, obs):
     ops = [{"op": "c17.so21", "A": a} for a in inp["A"]]
-    if not inp["shape"]:
-        A = [[F(x) for x in r] for r in inp["A"][0]]
+    for a in inp["A"]:
+        A = [[F(x) for x in r] for r in a]
         ops.append({"op": "c17.o_to_pgl", "S": Q.enc(so21_exact(A))})
     return ops
 
@@ -229,14 +229,18 @@ def judge_so21(inp, obs, lr):
                 return {"expected": "model answer", "observed": r, "tags": dict(tags0, driver_err=r["err"])}
             if not same(S[u], Q.decf(r["ok"])):
                 return {"expected": r["ok"], "observed": S[u].tolist(), "tags": dict(tags0, site=k, unit=u)}
-    if not inp["shape"]:
-        r = lr[cnt]
+    for k in ("pgl", "to_sl2", "hom_pgl"):
+        if "object_dtype" in obs[k] or list(toarr(obs[k]).shape) != inp["shape"] + [2, 2]:
+            return {"expected": inp["shape"] + [2, 2], "observed": obs[k] if "object_dtype" in obs[k] else list(toarr(obs[k]).shape),
+                    "tags": dict(tags0, site=k + "_shape"), "property_failure": True}
+    for u in range(cnt):
+        r = lr[cnt + u]
         if "err" in r:
             return {"expected": "model answer", "observed": r, "tags": dict(tags0, driver_err=r["err"])}
         mA = Q.decf(r["ok"]["A"])
-        A = C.dec(inp["A"], "Q")[0]
+        A = C.dec(inp["A"], "Q")[u]
         for k in ("pgl", "to_sl2", "hom_pgl"):
-            got = toarr(obs[k])
+            got = toarr(obs[k]).reshape((-1, 2, 2))[u]
             if not pm_same(got, mA):
                 # model (repaired extraction) and implementation disagree: is the property itself violated?
                 viol = not pm_same(got, A)
@@ -667,10 +671,13 @@ def run_pgl(inp):
     rmA = np.asarray(lie.o_to_pgl(-SA))
     # bilinear_form=None: the argument is already in the Killing basis, i.e. it is sl2_irrep(A, 3)
     rN = np.asarray(lie.o_to_pgl(np.asarray(lie.sl2_irrep(A, 3)), bilinear_form=None))
+    rS = np.asarray(lie.o_to_pgl(np.array([[SA, SB], [SA @ SB, -SA]])))          # an array of shape (2, 2, 3, 3)
+    rIS = np.asarray(H.sl2_iso(np.array([A, B])).to_sl2())
     rmAB = np.asarray(lie.o_to_pgl((-SA) @ SB))
     return {"rA": rA.tolist(), "rB": rB.tolist(), "rAB": rAB.tolist(), "to_sl2": r2.tolist(),
             "rmA": rmA.tolist(), "rmAB": rmAB.tolist(), "rN": rN.tolist(),
-            "from_to_sl2": r3.tolist(), "hom_so21_to_sl2": r4.tolist()}
+            "from_to_sl2": r3.tolist(), "hom_so21_to_sl2": r4.tolist(),
+            "stack": rS.tolist() if rS.shape == (2, 2, 2, 2) else list(rS.shape), "iso_stack": rIS.tolist() if rIS.shape == (2, 2, 2) else list(rIS.shape)}
 
 
 def pm_err(X, Y):
@@ -691,6 +698,14 @@ def judge_pgl(inp, obs, lr):
                     "tags": dict(tags0, site="recover_" + k, returns_PAP=bool(finite(obs[k]) and pm_err(obs[k], PAP) <= 1e-6))}
     if pm_err(obs["rAB"], np.array(obs["rA"]) @ np.array(obs["rB"])) > 1e-6:
         return {"expected": "o_to_pgl(S·T) = ± o_to_pgl(S)·o_to_pgl(T)", "observed": obs, "tags": dict(tags0, site="hom_up_to_sign")}
+    want = [[A, B], [A @ B, A]]
+    st = np.array(obs["stack"])
+    if st.shape != (2, 2, 2, 2) or any(pm_err(st[i][j], want[i][j]) > 1e-6 for i in range(2) for j in range(2)):
+        return {"expected": "o_to_pgl on an array of shape (2,2,3,3): ±A, ±B, ±AB, ±A unit by unit", "observed": obs["stack"],
+                "tags": dict(tags0, site="array")}
+    ist = np.array(obs["iso_stack"])
+    if ist.shape != (2, 2, 2) or pm_err(ist[0], A) > 1e-6 or pm_err(ist[1], B) > 1e-6:
+        return {"expected": "sl2_iso(stack).to_sl2() = ±A, ±B unit by unit", "observed": obs["iso_stack"], "tags": dict(tags0, site="iso_array")}
     if not finite(obs["rN"]) or pm_err(obs["rN"], A) > 1e-6:
         return {"expected": {"o_to_pgl(sl2_irrep(A,3), bilinear_form=None) = ±A": A.tolist()}, "observed": obs["rN"],
                 "tags": dict(tags0, site="form_none")}
@@ -1224,7 +1239,8 @@ def run_pglform(inp):
     rA = np.asarray(lie.o_to_pgl(SA, bilinear_form=form))
     rB = np.asarray(lie.o_to_pgl(SB, bilinear_form=form))
     rAB = np.asarray(lie.o_to_pgl(SA @ SB, bilinear_form=form))
-    return {"preserved": float(np.max(np.abs(SA.T @ form @ SA - form))), "rA": rA.tolist(), "rB": rB.tolist(), "rAB": rAB.tolist(),
+    rH = np.asarray(lie.hom.so21_to_sl2(bilinear_form=form)(SA))       # the wrapper must forward its keyword
+    return {"hom_wrapper": pm_err(rH, rA), "preserved": float(np.max(np.abs(SA.T @ form @ SA - form))), "rA": rA.tolist(), "rB": rB.tolist(), "rAB": rAB.tolist(),
             "detA": float(np.linalg.det(rA)), "trA": float(abs(np.trace(rA))), "want_tr": float(abs(np.trace(A))),
             "cond": float(np.linalg.cond(Pm))}
 
@@ -1239,6 +1255,9 @@ def judge_pglform(inp, obs, lr):
     if abs(obs["trA"] - obs["want_tr"]) > tol * (1 + obs["want_tr"]):
         return {"expected": "|trace| of A (A is recovered up to sign and conjugation by the isometry between the forms)",
                 "observed": obs, "tags": dict(tags0, site="trace")}
+    if obs["hom_wrapper"] > 1e-9:
+        return {"expected": "lie.hom.so21_to_sl2(bilinear_form=B)(S) = ± o_to_pgl(S, bilinear_form=B)", "observed": obs,
+                "tags": dict(tags0, site="hom_wrapper_keyword")}
     if pm_err(obs["rAB"], np.array(obs["rA"]) @ np.array(obs["rB"])) > tol * 10:
         return {"expected": "o_to_pgl(S·T, B) = ± o_to_pgl(S, B)·o_to_pgl(T, B)", "observed": obs, "tags": dict(tags0, site="hom_up_to_sign")}
     return None
@@ -1389,7 +1408,7 @@ CLAUSES = [
            what="sl2_irrep(A, n) and hom.sl2_irrep(n)(A), n = 1..6, ℚ and ℚ(i), single matrices and arrays (shapes rank 0-2), "
                 "SL(2), det -1, general invertible, zero entries — vs the model's general-n formula executed exactly"),
     Clause("so21_corr", "corr", gen_so21, run_so21, judge_so21, lean=lean_so21, site="lie.sl2_to_so21/o_to_pgl, hyperbolic.sl2_iso/to_sl2",
-           budget={"quick": 120, "thorough": 3000},
+           budget={"quick": 70, "thorough": 2000},
            what="sl2_to_so21 (arrays), sl2_iso (arrays, list input), o_to_pgl / hom.so21_to_sl2 / Isometry.to_sl2 on exact-ℚ matrices "
                 "incl. vanishing entries and det -1 — vs the model (repaired extraction; the pinned extraction is reported alongside)"),
     Clause("adjoint_corr", "corr", gen_adj, run_adj, judge_adj, lean=lean_adj, site="lie.gln_adjoint/sln_adjoint/sln_killing_form",
